@@ -288,6 +288,9 @@ CLAUSES = {
     "foreign-limit-shrink": {"actions": [
         _a("AddCa", c="B", p="A", res=["p1", "p2", "a1"]), _a("Settle"),
         _a("AddForeign", c="F", p="B", res=["p1", "p2"]),
+        # (the child knows the class under another name: C03 "under
+        # whichever class name the child was told")
+        _a("ChildMap", c="F", p="B", in_parent="0", for_child="mF"),
         _a("FIssue", c="F", x="cur", lim=["p1", "p2"], nolim=False),
         _a("FIssue", c="F", x="new", lim=[], nolim=True), _a("Settle"),
         _a("ChildRes", c="B", p="A", res=["p1", "a1"]), _a("Settle"),
